@@ -787,6 +787,7 @@ func (x *Exec) mapLen(st *State, mt *types.Map, m *Term) *Term {
 func (x *Exec) mapStore(st *State, mt *types.Map, m, k, v *Term, at ast.Node) {
 	dn, vn, ks, vs := x.mapHeaps(mt)
 	x.oblige(st, "nil", "write to nil map", Neq(m, IntLit(0)), at)
+	x.checkStableMaps(st, dn, m, at)
 	dom := x.hread(st, dn, mapSort(ks, SBool), m)
 	vals := x.hread(st, vn, mapSort(ks, vs), m)
 	nd := mk("store", dom.Sort, dom, k, tTrue)
@@ -797,8 +798,22 @@ func (x *Exec) mapStore(st *State, mt *types.Map, m, k, v *Term, at ast.Node) {
 	x.axiom(Eq(x.app(card, SInt, nd), Ite(selectKV(dom, k, SBool), x.app(card, SInt, dom), Add(x.app(card, SInt, dom), IntLit(1)))))
 }
 
+// checkStableMaps: a map whose iteration is reasoned about with visited()
+// must not be written while it is ranged over.
+func (x *Exec) checkStableMaps(st *State, dn string, m *Term, at ast.Node) {
+	if x.spec > 0 {
+		return
+	}
+	for _, sm := range x.stableMaps {
+		if sm.dn == dn {
+			x.oblige(st, "frame", "map written while a loop ranges over it with visited()", Neq(m, sm.ref), at)
+		}
+	}
+}
+
 func (x *Exec) mapDelete(st *State, mt *types.Map, m, k *Term, at ast.Node) {
 	dn, _, ks, _ := x.mapHeaps(mt)
+	x.checkStableMaps(st, dn, m, at)
 	dom := x.hread(st, dn, mapSort(ks, SBool), m)
 	nd := mk("store", dom.Sort, dom, k, tFalse)
 	x.hwrite(st, dn, mapSort(ks, SBool), m, Ite(Eq(m, IntLit(0)), dom, nd), at)
